@@ -33,7 +33,8 @@ PARTIAL = [
     "succeeds on the final context. outcome.rs execution_error_into_outcome would answer a 2xxxx code with EMPTY data otherwise "
     "(C02_internal_error_branch exhibits that branch in the model of the code for an arbitrary failing finish_streams). That the real "
     "compactification cannot fail needs the stream invariant 'every live stream value's trace position points at an Ap / stream Call state "
-    "of the result trace' by induction over the executor (DESIGN 6/C02 compactify_total): not proved; reading of ap.rs, ap_map.rs, "
+    "of the result trace' by induction over the executor (DESIGN 6/C02 compactify_total): the local half is proved "
+    "(C02_compactify_sufficient: a plan whose positions all point at such states runs to the end), the induction over exec is not; reading of ap.rs, ap_map.rs, "
     "call_result_setter.rs, prev_result_handler.rs, state_inserter.rs finds no way to break it and no generated or tampered run reached it",
     "signing failures (sign_produced_cids -> previous data + 20018; sign_result -> EMPTY data + 30001, a code in no documented class) are "
     "modelled as opaque booleans and are universally quantified; Ed25519 signing in fluence-keypair has no failing path, the only accepted key format",
